@@ -28,6 +28,8 @@ type fsGenOpts struct {
 	unclean  bool // non-clean path forms
 	aliasing bool // bias to aliasing operands (C05)
 	relative bool
+	orefa    bool // OrefaFS: operands relative to the CURRENT directory, "/" and "" as operands, deep MkdirAll chains, fewer self-deadlocking Link operands
+	rdonly   bool // bias OpenFile to read-only opens of existing entries (wrappers whose handles are the subject: RoFS)
 	kernel   bool // histories compared with the kernel: clean paths, the root is never an operand of a mutating call, creation perms without setuid/setgid
 }
 
@@ -110,6 +112,29 @@ func (g *fsGen) path() string {
 	if g.opts.relative && r.Bool(10) {
 		p = strings.TrimPrefix(p, "/")
 	}
+	if g.opts.orefa {
+		p = g.orefaForm(p)
+	}
+	return p
+}
+
+// orefaForm rewrites an absolute operand for the OrefaFS histories: relative to the current directory of the
+// implementation (below it, or through ".."), the empty name, "." and "..".
+func (g *fsGen) orefaForm(p string) string {
+	r := g.r
+	cwd, _ := g.impl.views[0].Getwd()
+	switch {
+	case r.Bool(2):
+		return lib.Pick(r, []string{"", ".", "..", "/"})
+	case !strings.HasPrefix(p, "/") || !strings.HasPrefix(cwd, "/"):
+		return p
+	case cwd != "/" && strings.HasPrefix(p, cwd+"/") && r.Bool(50):
+		return p[len(cwd)+1:]
+	case cwd != "/" && r.Bool(12):
+		return strings.Repeat("../", strings.Count(cwd, "/")) + p[1:]
+	case cwd == "/" && p != "/" && r.Bool(8):
+		return p[1:]
+	}
 	return p
 }
 
@@ -159,6 +184,10 @@ func lastElem(p string) string {
 // related returns a second operand related to the first (same, child, parent, sibling, other).
 func (g *fsGen) related(p string) string {
 	r := g.r
+	if g.opts.orefa && r.Bool(55) {
+		// fewer operands below the first one (Link(x, x/y) locks x twice: the history ends there)
+		return g.path()
+	}
 	if r.Bool(15) {
 		// a new name inside an EXISTING descendant directory of p (any depth)
 		dirs, _, _ := g.impl.existingPathsIn(g.vid)
@@ -248,6 +277,7 @@ var createPerms = []int{0o755, 0o644, 0o600, 0o700, 0o777, 0o666, 0o000, 0o400, 
 func (g *fsGen) next() string {
 	r := g.r
 	h := lib.Hex
+	dom := g.impl.prefix()
 	if len(g.queue) > 0 {
 		l := g.queue[0]
 		g.queue = g.queue[1:]
@@ -259,16 +289,16 @@ func (g *fsGen) next() string {
 		d := lib.Pick(r, []string{"a", "b", "lib"})
 		dx := d + lib.Pick(r, []string{"b", "64", "a"})
 		g.queue = append(g.queue,
-			fmt.Sprintf("fs 0 mkdirall %s 493", h(base+"/"+d)), fmt.Sprintf("fs 0 mkdirall %s 493", h(base+"/"+dx+"/sub")),
-			fmt.Sprintf("fs 0 writefile %s %s 420", h(base+"/"+dx+"/f"), h("DX")), fmt.Sprintf("fs 0 writefile %s %s 420", h(base+"/"+dx+"/sub/g"), h("G")))
+			fmt.Sprintf(dom+" 0 mkdirall %s 493", h(base+"/"+d)), fmt.Sprintf(dom+" 0 mkdirall %s 493", h(base+"/"+dx+"/sub")),
+			fmt.Sprintf(dom+" 0 writefile %s %s 420", h(base+"/"+dx+"/f"), h("DX")), fmt.Sprintf(dom+" 0 writefile %s %s 420", h(base+"/"+dx+"/sub/g"), h("G")))
 		tf, td := "../"+dx+"/f", "../"+dx
 		if r.Bool(40) {
 			tf, td = base+"/"+dx+"/f", base+"/"+dx
 		}
-		g.queue = append(g.queue, fmt.Sprintf("fs 0 symlink %s %s", h(tf), h(base+"/"+d+"/lf")), fmt.Sprintf("fs 0 symlink %s %s", h(td), h(base+"/"+d+"/ld")))
+		g.queue = append(g.queue, fmt.Sprintf(dom+" 0 symlink %s %s", h(tf), h(base+"/"+d+"/lf")), fmt.Sprintf(dom+" 0 symlink %s %s", h(td), h(base+"/"+d+"/ld")))
 		for _, q := range []string{"readfile " + h(base+"/"+d+"/lf"), "stat " + h(base+"/"+d+"/lf"), "evalsymlinks " + h(base+"/"+d+"/lf"), "readfile " + h(base+"/"+d+"/ld/f"),
 			"readdir " + h(base+"/"+d+"/ld"), "readfile " + h(base+"/"+d+"/ld/sub/g"), "evalsymlinks " + h(base+"/"+d+"/ld/sub"), "lstat " + h(base+"/"+d+"/ld")} {
-			g.queue = append(g.queue, "fs 0 "+q)
+			g.queue = append(g.queue, dom+" 0 "+q)
 		}
 		l := g.queue[0]
 		g.queue = g.queue[1:]
@@ -278,7 +308,7 @@ func (g *fsGen) next() string {
 		// a chain of k symbolic links ending at a file, around the resolution budget, then queries through it
 		k := lib.Pick(r, []int{1, 2, 5, 38, 39, 40, 41, 42})
 		base := lib.Pick(r, []string{"/tmp", "/root"})
-		g.queue = append(g.queue, fmt.Sprintf("fs 0 writefile %s %s 420", h(base+"/end"), h("E")))
+		g.queue = append(g.queue, fmt.Sprintf(dom+" 0 writefile %s %s 420", h(base+"/end"), h("E")))
 		for i := k - 1; i >= 0; i-- {
 			tgt := fmt.Sprintf("%s/l%d", base, i+1)
 			if i == k-1 {
@@ -287,12 +317,12 @@ func (g *fsGen) next() string {
 			if r.Bool(50) {
 				tgt = tgt[len(base)+1:] // relative sibling
 			}
-			g.queue = append(g.queue, fmt.Sprintf("fs 0 symlink %s %s", h(tgt), h(fmt.Sprintf("%s/l%d", base, i))))
+			g.queue = append(g.queue, fmt.Sprintf(dom+" 0 symlink %s %s", h(tgt), h(fmt.Sprintf("%s/l%d", base, i))))
 		}
 		for _, q := range []string{"stat", "lstat", "readfile", "evalsymlinks", "readlink"} {
-			g.queue = append(g.queue, fmt.Sprintf("fs 0 %s %s", q, h(base+"/l0")))
+			g.queue = append(g.queue, fmt.Sprintf(dom+" 0 %s %s", q, h(base+"/l0")))
 		}
-		g.queue = append(g.queue, fmt.Sprintf("fs 0 removeall %s", h(base)))
+		g.queue = append(g.queue, fmt.Sprintf(dom+" 0 removeall %s", h(base)))
 		l := g.queue[0]
 		g.queue = g.queue[1:]
 		return l
@@ -302,7 +332,7 @@ func (g *fsGen) next() string {
 		vid = 1 + r.Intn(g.nviews-1)
 	}
 	g.vid = vid
-	pre := fmt.Sprintf("fs %d ", vid)
+	pre := fmt.Sprintf("%s %d ", dom, vid)
 	if g.opts.files && len(g.open) > 0 && r.Bool(45) {
 		return pre + "file " + fmt.Sprint(lib.Pick(r, g.open)) + " " + g.fileOp()
 	}
@@ -327,6 +357,27 @@ func (g *fsGen) next() string {
 	if g.opts.views && r.Bool(6) {
 		cwd, _ := g.impl.views[vid].Getwd()
 		return pre + "sub " + h(g.subDir(cwd))
+	}
+	if g.opts.enum && g.opts.users && vid == 0 && r.Bool(4) {
+		// enumeration by a plain user over sibling directories of which one cannot be read / searched: matches gathered
+		// before and after it, errors handed to the WalkDir callback
+		base := lib.Pick(r, []string{"/tmp", "/tmp/t"})
+		mode := lib.Pick(r, []int{0o711, 0o300, 0o000, 0o444, 0o755})
+		which := lib.Pick(r, []string{"a", "b", "c"})
+		g.queue = append(g.queue, fmt.Sprintf(dom+" 0 mkdirall %s 511", h(base)))
+		for _, d := range []string{"a", "b", "c"} {
+			g.queue = append(g.queue, fmt.Sprintf(dom+" 0 mkdirall %s 493", h(base+"/"+d)),
+				fmt.Sprintf(dom+" 0 writefile %s %s 420", h(base+"/"+d+"/x"+d), h("X")))
+		}
+		g.queue = append(g.queue, fmt.Sprintf(dom+" 0 chmod %s %d", h(base+"/"+which), mode), dom+" 0 setuser 1001 1001 0")
+		for _, q := range []string{"glob " + h(base+"/*/x*"), "glob " + h(base+"/[ab]/x?"), "glob " + h(base+"/?/*"), "walk " + h(base) + " c,c,c", "walk " + h(base) + " -",
+			"readdir " + h(base+"/"+which), "direxists " + h(base+"/"+which), "exists " + h(base+"/"+which+"/x"+which)} {
+			g.queue = append(g.queue, dom+" 0 "+q)
+		}
+		g.queue = append(g.queue, dom+" 0 setuser 0 0 1")
+		l := g.queue[0]
+		g.queue = g.queue[1:]
+		return l
 	}
 	if g.opts.enum && r.Bool(45) {
 		switch r.Intn(6) {
@@ -354,10 +405,31 @@ func (g *fsGen) next() string {
 	case 0, 1:
 		return pre + fmt.Sprintf("mkdir %s %d", h(g.path()), lib.Pick(r, createPerms))
 	case 2:
+		if g.opts.orefa && r.Bool(40) {
+			// a chain of two to four missing directories below an existing one
+			if d, ok := g.pickExisting("dir"); ok {
+				p := strings.TrimSuffix(d, "/")
+				for k := 2 + r.Intn(3); k > 0; k-- {
+					p += "/" + lib.Pick(r, fsNames)
+				}
+				return pre + fmt.Sprintf("mkdirall %s %d", h(g.orefaForm(p)), lib.Pick(r, createPerms))
+			}
+		}
 		return pre + fmt.Sprintf("mkdirall %s %d", h(g.path()), lib.Pick(r, createPerms))
 	case 3, 4:
 		return pre + fmt.Sprintf("writefile %s %s %d", h(g.path()), h(lib.Pick(r, []string{"", "x", "hello", "0123456789"})), lib.Pick(r, createPerms))
 	case 5:
+		if g.opts.orefa && r.Bool(35) {
+			// a handle on a directory that has entries, for ReadDir / Readdirnames in batches
+			if d, ok := g.pickExisting("any"); ok && d != "/" {
+				return pre + fmt.Sprintf("openfile %s 0 0", h(g.orefaForm(d[:max(strings.LastIndex(d, "/"), 1)])))
+			}
+		}
+		if g.opts.rdonly && r.Bool(60) {
+			if q, ok := g.pickExisting(lib.Pick(r, []string{"file", "file", "dir", "any"})); ok {
+				return pre + fmt.Sprintf("openfile %s 0 0", h(q))
+			}
+		}
 		return pre + fmt.Sprintf("openfile %s %d %d", h(g.path()), lib.Pick(r, openFlags), lib.Pick(r, createPerms))
 	case 6:
 		return pre + "create " + h(g.path())
@@ -367,10 +439,25 @@ func (g *fsGen) next() string {
 		return pre + "removeall " + h(g.noRoot(g.path()))
 	case 10, 11, 12:
 		p := g.noRoot(g.path())
-		return pre + "rename " + h(p) + " " + h(g.noRoot(g.related(p)))
+		q := g.noRoot(g.related(p))
+		if g.opts.orefa {
+			// a Rename into a directory that never had a child ends the history (panic): most of them are drawn again
+			for k := 0; k < 3 && g.orefaEnds("rename", p, q) && r.Bool(75); k++ {
+				p = g.noRoot(g.path())
+				q = g.noRoot(g.related(p))
+			}
+		}
+		return pre + "rename " + h(p) + " " + h(q)
 	case 13, 14:
 		p := g.path()
-		return pre + "link " + h(p) + " " + h(g.related(p))
+		q := g.related(p)
+		if g.opts.orefa {
+			for k := 0; k < 3 && g.orefaEnds("link", p, q) && r.Bool(60); k++ {
+				p = g.path()
+				q = g.related(p)
+			}
+		}
+		return pre + "link " + h(p) + " " + h(q)
 	case 15:
 		return pre + fmt.Sprintf("truncate %s %d", h(g.path()), lib.Pick(r, []int{0, 1, 3, 20, -1}))
 	case 16:
@@ -379,7 +466,7 @@ func (g *fsGen) next() string {
 		}
 		return pre + fmt.Sprintf("chmod %s %d", h(g.path()), lib.Pick(r, perms))
 	case 17:
-		if g.opts.users {
+		if g.opts.users || g.opts.orefa {
 			return pre + fmt.Sprintf("chown %s %d %d", h(g.path()), lib.Pick(r, []int{0, 1001, 1002, -1}), lib.Pick(r, []int{0, 1001, 1002, -1}))
 		}
 		return pre + fmt.Sprintf("chown %s %d %d", h(g.path()), lib.Pick(r, []int{0, 1001}), lib.Pick(r, []int{0, 1001}))
@@ -429,7 +516,12 @@ func (g *fsGen) fileOp() string {
 	case 5:
 		return fmt.Sprintf("writeat %s %d", lib.Hex(lib.Pick(r, []string{"", "Y", "777"})), lib.Pick(r, offs))
 	case 6, 7:
-		return fmt.Sprintf("seek %d %d", lib.Pick(r, offs), lib.Pick(r, []int{0, 0, 1, 2, 2, 5}))
+		off := lib.Pick(r, offs)
+		if g.opts.orefa && off > 3 && r.Bool(70) {
+			// a Read or Write at an offset beyond the end ends the history on OrefaFS: fewer far seeks
+			off = lib.Pick(r, []int{0, 1, 2, 3})
+		}
+		return fmt.Sprintf("seek %d %d", off, lib.Pick(r, []int{0, 0, 1, 2, 2, 5}))
 	case 8:
 		return fmt.Sprintf("truncate %d", lib.Pick(r, []int{-1, 0, 1, 4, 12, 25}))
 	case 9:
@@ -450,4 +542,22 @@ func (g *fsGen) fileOp() string {
 	default:
 		return fmt.Sprintf("readdirnames %d", lib.Pick(r, []int{-1, 0, 1, 2, 5}))
 	}
+}
+
+// orefaEnds: the call is one of those known to end a history on OrefaFS (Rename whose new parent has a nil children map
+// or is a file, Link whose new parent is the old node).
+func (g *fsGen) orefaEnds(op, o, n string) bool {
+	vfs := g.impl.views[0]
+	oa, _ := vfs.Abs(o)
+	na, _ := vfs.Abs(n)
+	i := strings.LastIndex(na, "/")
+	if i <= 0 || orefaNode(g.impl, oa) == "" {
+		return false
+	}
+	par := na[:i]
+	if op == "link" {
+		return orefaNode(g.impl, par) == orefaNode(g.impl, oa)
+	}
+	fi, err := vfs.Stat(par)
+	return err == nil && (!fi.IsDir() || orefaNilMap(g.impl, par))
 }
